@@ -38,6 +38,10 @@ def series():
   short = base[:18] * 1.5 + rng.normal(0, 0.3, 18)        # a shorter pretest window (index 2 of ys; xs 7 and 8 go with it)
   ys.append(short)
   xs += [2 * base[:18] + rng.normal(0, 0.2, 18), rng.normal(50, 5, 18)]
+  # 9, 10: whole-number control series held in integer arrays (counts); 11: an integer treatment-like level, as a list
+  r2 = np.random.RandomState(1)
+  xs += [np.round(x1).astype(np.int64), np.round(3 * base + r2.normal(0, 4, 30)).astype(np.int64),
+         [int(v) for v in np.round(base + r2.normal(0, 2, 30))]]
   return xs, ys
 
 
@@ -128,7 +132,7 @@ def run(tier):
   ck.prove('props/C08.v', gen_targets=['diagcache'], extra=['harness/RunC08.vo'])
   rng = random.Random(ck.seed * 31 + 8)
   alphabet = [('x', 0), ('x', 1), ('x', 2), ('x', 3), ('y', 0), ('y', 1)] + [('r', m) for m in READS]
-  wide = alphabet + [('x', 4), ('x', 5), ('x', 6)]
+  wide = alphabet + [('x', 4), ('x', 5), ('x', 6), ('x', 9), ('x', 10), ('x', 11)]
   hist = []
   # exhaustively: every history of length <= 3 that ends in a read (quick) / <= 4 (thorough)
   maxlen = common.sz(tier, 3, 4)
@@ -146,6 +150,12 @@ def run(tier):
     for m in READS:
       hist.append([('x', a), ('r', m), ('x', b), ('r', m)])
       hist.append([('x', a), ('x', b), ('r', m)])
+  # a control series of whole numbers in an integer array (or a list of ints), then a fractional one, and back
+  for a in (9, 10, 11):
+    for b in (1, 2, 3):
+      for m in READS:
+        hist.append([('x', a), ('r', m), ('x', b), ('r', m)])
+        hist.append([('x', a), ('x', b), ('r', m), ('x', a), ('r', m)])
   # the treatment series is replaced by one of another length (with control series of that length)
   for m in READS:
     hist.append([('x', 1), ('r', m), ('y', 2), ('x', 7), ('r', m)])
@@ -186,7 +196,7 @@ def run(tier):
   if bad:
     ck.tie_broken('correspondence', 'staleness predicted by the model (regenerated tables) differs from the object on %d histories' % len(bad),
                   {'history': hist[sorted(bad)[0]]})
-  ck.cov['rule'] = ('alphabet: 4 control series incl. None (random histories also use 3 more: one within 1e-7 relative of another, two on a 2e6 baseline differing by a few units), 2 treatment series (plus a shorter one in scripted length-change histories), 10 members read (corr, required_impact, pretestfit, '
+  ck.cov['rule'] = ('alphabet: 4 control series incl. None (random and scripted histories also use 6 more: one within 1e-7 relative of another, two on a 2e6 baseline differing by a few units, three of whole numbers held in integer arrays / a list of ints), 2 treatment series (plus a shorter one in scripted length-change histories), 10 members read (corr, required_impact, pretestfit, '
                     'aatest, bbtest, dwtest, corr_test, tests_ok, tbrfit(xt, yt), estimate_required_impact(rho)); every history of '
                     'length <= %d ending in a read (exhaustive), the set/read/set/read pattern for every pair of members, and random '
                     'histories of length 5-15. non-trivial: at least one assignment and one read; distinct: the history' % maxlen)
